@@ -18,6 +18,7 @@ import glob
 import os
 import re
 import sys
+import threading
 
 from vlib.common import *
 from vlib.common import run as sh
@@ -174,21 +175,16 @@ def ids_in(body):
     return sorted(set(int(x) for x in re.findall(r"\bi64 (7\d{6})\b", body)))
 
 
-def find_modules(ctx, before):
-    """IR modules written by the last llgo build: *.ll files of the build cache that were not there before"""
+def find_modules(ctx, paths):
+    """IR modules (`-gen-llfiles` leaves <export file>.ll in the build cache) of the generated packages `paths`;
+    every generated program has its own module root, so the ModuleID identifies the program's package"""
     mods = []
     for f in glob.glob(os.path.join(ctx.llgo_dir, "xdg", "go-build", "*", "*.ll")):
-        if f in before and before[f] == os.path.getmtime(f):
-            continue
-        try:
+        head = open(f).read(400)
+        m = re.search(r"^; ModuleID = '(.*)'", head, re.M)
+        if m and m.group(1) in paths:
             mods.append(Module(f, open(f).read()))
-        except Exception as e:  # noqa
-            ctx.log("cannot parse", f, e)
     return mods
-
-
-def ll_snapshot(ctx):
-    return {f: os.path.getmtime(f) for f in glob.glob(os.path.join(ctx.llgo_dir, "xdg", "go-build", "*", "*.ll"))}
 
 
 # ------------------------------------------------------------------------------------------- in-process source route
@@ -225,12 +221,34 @@ def directives(files, order):
 def run(ctx, args):  # noqa: C901
     quick = ctx.tier == "quick"
     rng = ctx.rng
+    # the two Go builds (harness, llgo) run in the background while lake builds the Lean modules
+    bg = {}
+
+    def spawn(name, fn):
+        def w():
+            try:
+                bg[name] = (True, fn())
+            except BaseException as e:  # noqa
+                bg[name] = (False, e)
+        t = threading.Thread(target=w)
+        t.start()
+        return t
+
+    def joined(t, name):
+        t.join()
+        ok, v = bg[name]
+        if not ok:
+            raise v
+        return v
+    th = spawn("harness", lambda: build_go_harness(ctx, "c14", overlay={"cl/zz_verif_export.go": "overlay/zz_cl_verif_export.go.txt",
+                                                                         "ssa/zz_verif_opaque.go": "overlay/zz_verif_opaque.go.txt"}, tags="llvm14,verif"))
+    tl = spawn("llgo", lambda: build_llgo(ctx))
     st = lean_check(ctx, ["LlgoVerif.Props.C14"], ["LlgoVerif/Props/C14.lean"],
                     extra_files=["LlgoVerif/Model/LinkName.lean", "LlgoVerif/Lemmas/LinkName.lean"],
                     leanchecker=(ctx.tier == "thorough"))
+    ctx.log("lean: %s" % sorted(set(st.values())))
     modeld = build_driver(ctx, "modeld_c14")
-    harness = build_go_harness(ctx, "c14", overlay={"cl/zz_verif_export.go": "overlay/zz_cl_verif_export.go.txt",
-                                                    "ssa/zz_verif_opaque.go": "overlay/zz_verif_opaque.go.txt"}, tags="llvm14,verif")
+    harness = joined(th, "harness")
     stats = {}
     mismatches = []       # (request, real, model)
     spec_failures = []
@@ -299,8 +317,10 @@ def run(ctx, args):  # noqa: C901
         else:
             ctx.report("linkname:collision:" + uh(name), what, {"terms": terms, "name": uh(name)})
 
+    ctx.log("constructed route: %d requests, %d mismatches" % (len(reqs), len(mismatches)))
     # ---------------------------------------------------------------- programs
-    build_llgo(ctx)
+    joined(tl, "llgo")
+    ctx.log("llgo built")
     env = llgo_env(ctx)
     trees = []
     f1, ids1, order1 = progs.gen_main_program(rng)
@@ -354,7 +374,8 @@ def run(ctx, args):  # noqa: C901
                 key = (cur, nm) if r["kind"] in ("bound", "thunk", "wrapper") else ("*", nm)
                 seen.setdefault(key, {})[r["term"]] = (r, cov)
         for (cur, nm), ents in sorted(seen.items(), key=lambda kv: str(kv[0])):
-            if len(ents) < 2:
+            ents = {t: v for t, v in ents.items() if all(ft.split(".")[0] == "1" for (_, _, ft) in v[0]["cols"])}
+            if len(ents) < 2:     # (entities bound to a C / python symbol by a directive share that symbol on purpose)
                 continue
             rs = [v[0] for v in ents.values()]
             kinds = set(r["kind"] for r in rs)
@@ -374,11 +395,10 @@ def run(ctx, args):  # noqa: C901
     samples.append({"tree": "main", "entity": inproc["main"][len(inproc["main"]) // 2]["str"], "names": inproc["main"][len(inproc["main"]) // 2]["cols"][:2]})
 
     # ---------------------------------------------------------------- E: compile, read symbol tables, run
-    def compile_tree(tname, want_ref=True):
+    def compile_tree(tname, order, want_ref=True):
         d = os.path.join(ctx.scratch, "t-" + tname)
-        before = ll_snapshot(ctx)
         p = sh([ctx.llgo, "build", "-tags", "nogc", "-O0", "-gen-llfiles", "-o", os.path.join(d, "prog"), "."], cwd=d, env=env, timeout=1800)
-        mods = find_modules(ctx, before)
+        mods = find_modules(ctx, [o["path"] for o in order])
         ref = None
         if want_ref:
             pr = go_run_reference(ctx, d, os.path.join(d, "ref"))
@@ -389,10 +409,14 @@ def run(ctx, args):  # noqa: C901
         out = run_prog(os.path.join(d, "prog")) if p.returncode == 0 else None
         return p, mods, out, ref
 
+    ctx.log("in-process source route: %d trees, %d mismatches so far" % (len(trees), len(mismatches)))
     # --- main program
-    p, mods, out, ref = compile_tree("main")
+    p, mods, out, ref = compile_tree("main", order1)
+    ctx.log("main program compiled: rc=%s, %d IR modules" % (p.returncode, len(mods)))
     genpaths = [o["path"] for o in order1]
-    mods = [m for m in mods if m.id in genpaths]
+    # the three small programs compile concurrently (the runtime packages are in llgo's cache now)
+    ts = [spawn("dotted", lambda: compile_tree("dotted", order2)), spawn("wrapper", lambda: compile_tree("wrapper", order3)),
+          spawn("linkname", lambda: compile_tree("linkname", order4, want_ref=False))]
     stats["e2e-modules"] = len(mods)
     if p.returncode != 0:
         msg = (p.stdout + p.stderr)[-3000:]
@@ -459,9 +483,9 @@ def run(ctx, args):  # noqa: C901
         refs = 0
         for m in mods:
             for nm in sorted(m.decls | m.gdecls):
-                owner = max((g for g in genpaths if nm.startswith(g + ".")), key=len, default=None)
-                if owner is None and not any(g + "." in nm for g in genpaths):
-                    continue          # runtime, libc, llvm intrinsics
+                owner = max((g for g in genpaths if nm.startswith(g + ".") or nm.startswith("__llgo_stub." + g + ".")), key=len, default=None)
+                if owner is None:
+                    continue          # runtime, libc, llvm intrinsics, type descriptors
                 refs += 1
                 if nm not in alldef:
                     what = "module %s references %r, which no generated module defines" % (m.id, nm)
@@ -504,16 +528,18 @@ def run(ctx, args):  # noqa: C901
             stats["e2e-output-lines-equal"] = len(out[1].split("\n"))
         samples.append({"symbol": sorted(id2names.get(progs.ID0 + 4, ["?"]))[0], "entity": ids1.info.get(progs.ID0 + 4)})
 
+    ctx.log("main program judged")
     # --- dotted last path element (known finding): duplicate symbol at link time
-    p, mods, out, ref = compile_tree("dotted")
+    p, mods, out, ref = joined(ts[0], "dotted")
+    ctx.log("dotted-path program: rc=%s" % p.returncode)
     msg = p.stdout + p.stderr
     n_eval += 1
     if p.returncode != 0:
         mm = re.search(r"multiple definition of '([^']*)'", msg)
         sym = mm.group(1) if mm else None
-        what = "package m/a.B func C and package m/a method (B).C: " + (("duplicate symbol %r at link time" % sym) if sym else "build failed: " + msg[-300:])
+        what = "package d/a.B func C and package d/a method (B).C: " + (("duplicate symbol %r at link time" % sym) if sym else "build failed: " + msg[-300:])
         spec_failures.append(what)
-        ctx.report(K_DOT if sym == "m/a.B.C" else "linkname:dotted-program:" + str(sym or msg[-200:]), what, {"files": f2, "output": msg[-1500:]})
+        ctx.report(K_DOT if sym == "d/a.B.C" else "linkname:dotted-program:" + str(sym or msg[-200:]), what, {"files": f2, "output": msg[-1500:]})
     elif ref is not None and out[1] != ref[1]:
         what = "dotted-path program prints %r, reference %r" % (out[1], ref[1])
         spec_failures.append(what)
@@ -522,20 +548,22 @@ def run(ctx, args):  # noqa: C901
         stats["dotted-program-ok"] = 1
 
     # --- same-named receiver types of different packages used as method values / method expressions
-    p, mods, out, ref = compile_tree("wrapper")
+    p, mods, out, ref = joined(ts[1], "wrapper")
+    ctx.log("wrapper program: rc=%s" % p.returncode)
     n_eval += 1
     if p.returncode != 0 or ref is None or out[1] != ref[1]:
         what = "method values a.T.M, T.M, b.T.M taken in one package: llgo prints %r, the reference toolchain %r" % (
             out[1] if out else (p.stdout + p.stderr)[-300:], ref[1] if ref else None)
         spec_failures.append(what)
-        mods_m = [m for m in mods if m.id == "m"]
+        mods_m = [m for m in mods if m.id == "w"]
         wr = sorted(nm for m in mods_m for nm in m.defs if nm.endswith("$bound") or nm.endswith("$thunk"))
-        ctx.report(K_WRAP if wr == ["m.T.M$bound", "m.T.M$thunk"] else "linkname:wrapper-program:" + ",".join(wr), what, {"files": f3, "wrappers": wr})
+        ctx.report(K_WRAP if wr == ["w.T.M$bound", "w.T.M$thunk"] else "linkname:wrapper-program:" + ",".join(wr), what, {"files": f3, "wrappers": wr})
     else:
         stats["wrapper-program-ok"] = 1
 
     # --- //go:linkname and //export bind exactly the declared symbol
-    p, mods, out, ref = compile_tree("linkname", want_ref=False)
+    p, mods, out, ref = joined(ts[2], "linkname")
+    ctx.log("linkname program: rc=%s" % p.returncode)
     n_eval += len(binds4) + 1
     if p.returncode != 0:
         what = "program with //go:linkname to C symbols and //export does not build: " + (p.stdout + p.stderr)[-400:]
